@@ -592,7 +592,6 @@ func TestVerifKF_C02_FailedResponseNotAwaited(t *testing.T) {
 
 var _ = sort.Strings
 
-
 // ---- facet C02/stop-writer -------------------------------------------------------------------------------------
 //
 // A stop request arriving while captured responses still wait for the WARC writer (slow disk, busy writer pool, large
